@@ -75,8 +75,9 @@ def rule_key(ctx):
     rk = canon(rem.op_expr(rc[0].args[1]))
     ctx.check('key', 'insert-key=outpoint(txid,index)', ik == 'to_bytes(new(a1.hash, (%s.0 as u32)))' % out, ic[0], 'insert key = %s' % ik)
     ctx.check('key', 'remove-key=input.outpoint', rk == 'to_bytes(each(a1.value.inputs).outpoint)', rc[0], 'remove key = %s' % rk)
-    tb_i = [c for c in ins.calls if mir.method_name(c.name) == 'to_bytes']
-    tb_r = [c for c in rem.calls if mir.method_name(c.name) == 'to_bytes']
+    # the serializer calls, in the helper itself or in a closure it creates (a lazily mapped key iterator)
+    tb_i = [c for bd in [ins] + util.closures_created(prog, ins) for c in bd.calls if mir.method_name(c.name) == 'to_bytes']
+    tb_r = [c for bd in [rem] + util.closures_created(prog, rem) for c in bd.calls if mir.method_name(c.name) == 'to_bytes']
     same = len(tb_i) == 1 and len(tb_r) == 1 and tb_i[0].name == tb_r[0].name and 'TxOutpoint' in tb_i[0].name
     ctx.check('key', 'same-serializer', same, tb_i[0] if tb_i else ins, 'both keys use %s' % (tb_i[0].name if tb_i else '?'))
     nw = [c for c in ins.calls if mir.method_name(c.name) == 'new' and 'TxOutpoint' in c.name]
